@@ -14,6 +14,7 @@ import DeapModel.Lemmas.C06Lex
 import DeapModel.Lemmas.C06Dcd
 import DeapModel.Lemmas.C06Double
 import DeapModel.Lemmas.C06Hist
+import DeapModel.Lemmas.C06Gen
 
 set_option linter.unusedSectionVars false
 set_option linter.unusedSimpArgs false
